@@ -148,7 +148,7 @@ def replay_case(ctx, svc, d, case, desc):
 
 
 def run_worker(ctx):
-    engb.run_cases(ctx, case_fn, examples=ctx.pick(12, 300),
+    engb.run_cases(ctx, case_fn, examples=ctx.pick(12, 80),
                    queries_per_state=ctx.pick(8, 12))
 
 
